@@ -791,15 +791,16 @@ bool qvector_resize(qvector_t *vector, size_t newmax) {
  *  - ENOMEM : Memory allocation failure.
  */
 void *qvector_toarray(qvector_t *vector, size_t *size) {
+    vector->lock(vector);
+
     if (vector->num <= 0) {
+        vector->unlock(vector);
         if (size != NULL) {
             *size = 0;
         }
         errno = ENOENT;
         return NULL;
     }
-
-    vector->lock(vector);
 
     void *array = malloc(vector->num * vector->objsize);
     if (array == NULL) {
